@@ -170,6 +170,13 @@ class GroupHooks(SliceHooks):
     def on_access(self, I, st, inst, kind, p, nbytes):
         if kind == 'load' and self.storage is not None and p.obj == self.storage and nbytes == 1:
             st.ev('unit-load', inst, p.off, st.objs[p.obj].version)
+        elif kind == 'load' and self.storage is not None and p.obj is not None and p.obj != self.storage and p.off.t:
+            # a lookup indexed by a unit of the string in something that is not a constant of the program (a table built at run time)
+            from ..terms import base_atoms
+            if any(isinstance(a, tuple) and a[0] == 'load' and a[1] == self.storage for a in base_atoms(p.off)):
+                o2 = st.objs.get(p.obj)
+                if o2 is None or not (o2.attrs.get('const') and o2.attrs.get('data') is not None):
+                    st.ev('dyn-lookup', inst, p)
 
 
 def _signed(v, b):
@@ -215,7 +222,11 @@ def group_paths(m, F, E, f):
             continue
         tl = [e for e in s2.events[wi + 1:] if e[0] == 'table-load']
         reads, why, seen = [], None, set()
-        for e in inloop:
+        dyn = [e for e in s2.events[wi + 1:] if e[0] == 'dyn-lookup']
+        if dyn:
+            why = ('a unit is looked up (line %d) in a table that is not a constant of the program (built at run time): which units the '
+                   'path admits is not decided' % dyn[0][1].line)
+        for e in (inloop if not why else []):
             u = ('load', H.storage, e[2], e[3], 8)
             if u in seen:
                 continue
